@@ -235,6 +235,18 @@ def shard(a):
     res = core.Result()
     name = a['mod']
     core.drive(prop, strategy(name, 0), a['n'], (a['seed'], 'C07', name, a['i']), res, shrink_skip=a['known'])
+    # deterministic: at every position of a few valid numbers the same-valued digit of three other scripts and the letters
+    # whose case mappings cross into ASCII (a pattern widened to \d / a case-insensitive comparison)
+    fold = {'K': '\u212a', 'S': '\u017f', 'I': '\u0131', 'A': '\u0410', 'X': '\u0425'}
+    for v in gen.pool(name)[:3]:
+        for i, ch in enumerate(v):
+            alts = []
+            if ch.isdigit() and ch.isascii():
+                alts = [chr(0x660 + int(ch)), chr(0x966 + int(ch)), chr(0xFF10 + int(ch)), chr(0x1D7CE + int(ch))]
+            elif ch.upper() in fold:
+                alts = [fold[ch.upper()], fold[ch.upper()].lower()]
+            for alt in alts:
+                prop({'mod': name, 'x': core.enc(v[:i] + alt + v[i + 1:]), 'near': True}, res)
     if name == 'isbn':
         v = gen.valid_numbers('isbn')
         strat = st.builds(lambda x: {'x': core.enc(x)}, st.one_of(v, neighbours('isbn', v), neighbours('isbn', st.sampled_from(gen.seeds('isbn'))),
